@@ -199,6 +199,11 @@ fn run_cut(ctx: &Ctx, env: &Env, base: &ConvCase, deliverable_at: &[usize], k: u
             }
         }
     }
+    if finding.is_none() {
+        if let Some(d) = obs.delivered.iter().find(|d| d.read_err.as_deref().map_or(false, |e| e.starts_with("INTERRUPTED-FOREVER"))) {
+            finding = Some(("body-read-never-ends".into(), format!("delivery #{}: {}", d.k, d.read_err.clone().unwrap_or_default())));
+        }
+    }
     if finding.is_none() && !obs.handlers_done {
         finding = Some(("handler-blocked".into(), "a body read or respond call did not return within the bound after the client was gone".into()));
     }
@@ -265,7 +270,7 @@ fn run_response_case(ctx: &Ctx, env: &Env, cs: u64) {
         read_sizes: vec![4096],
         as_reader_calls: 1,
         finish: if rng.chance(1, 5) {
-            Finish::Writer { status: 200, body_len, parts: vec![(100, true), (50000, false)], early_drop_sleep_us: 0 }
+            Finish::Writer { status: 200, body_len, parts: vec![(100, true), (50000, false)], early_drop_sleep_us: 0, vectored: false }
         } else {
             Finish::Respond { status: 200, body_len, declared, threshold: None, max_piece: 1 << 20 }
         },
